@@ -305,6 +305,7 @@ impl State {
 //@use coll.fns ::core_word_print
 //@use coll.fns ::core_word_newline
 //@use coll.fns ::core_word_println
+//@use coll.fns ::core_word_exit
 
 } // verus!
 fn main() {}
